@@ -23,6 +23,8 @@ impl Notifier {
 
         let mut buffer = [0u8; LEN];
 
+        #[cfg(compio_verif)]
+        compio_log::verif::point("notify.clear", 0, 0);
         let res = poll_io(|| rustix::io::read(self, &mut buffer))?;
 
         debug_assert!(matches!(res, Poll::Pending | Poll::Ready(LEN)));
@@ -86,6 +88,8 @@ impl Wake for Notify {
 
     fn wake_by_ref(self: &Arc<Self>) {
         if !self.awake.wake() {
+            #[cfg(compio_verif)]
+            compio_log::verif::point("notify.write", 0, 0);
             rustix::io::write(&self.fd, &u64::to_be_bytes(1)).ok();
         }
     }
